@@ -9,6 +9,10 @@ import (
 	"github.com/spf13/cobra"
 )
 
+// Min frequency: not shared with the cutoffs of the other commands,
+// whose default is different
+var consensuscutoff float64
+
 // consensusCmd represents the consensus command
 var consensusCmd = &cobra.Command{
 	Use:   "consensus",
@@ -45,7 +49,7 @@ In the output consensus tree:
 			return
 		}
 		defer treefile.Close()
-		consensus, err = tree.Consensus(treechan, cutoff)
+		consensus, err = tree.Consensus(treechan, consensuscutoff)
 		if err != nil {
 			io.LogError(err)
 			return
@@ -59,5 +63,5 @@ func init() {
 	computeCmd.AddCommand(consensusCmd)
 	consensusCmd.PersistentFlags().StringVarP(&intreefile, "input", "i", "stdin", "Input tree")
 	consensusCmd.PersistentFlags().StringVarP(&outtreefile, "output", "o", "stdout", "Output file")
-	consensusCmd.PersistentFlags().Float64VarP(&cutoff, "freq-min", "f", 0.5, "Minimum frequency to keep the bipartitions")
+	consensusCmd.PersistentFlags().Float64VarP(&consensuscutoff, "freq-min", "f", 0.5, "Minimum frequency to keep the bipartitions")
 }
